@@ -254,7 +254,18 @@ FULL = [
     dict(op="add_slide", layout=6), dict(op="add_slide", layout=1),
     dict(op="notes_text", text="n", **S0), dict(op="hlink_shape", url="https://e.com/a", **S0), dict(op="hlink_shape", url=None, **S0),
     dict(op="hlink_shape", url="https://e.com/a", which="first", **S0), dict(op="hlink_shape", url=None, which="first", **S0),
+    dict(op="hlink_run", url="https://e.com/a", which="first", **S0), dict(op="hlink_run", url="https://e.com/a", **S0),
+    dict(op="hlink_run", url=None, **S0),
     dict(op="save"), dict(op="touch_slides"), dict(op="save_reopen"),
+]
+# relationship-sharing sub-alphabet: two references to one relationship arise when two shapes / two runs link
+# to the same URL; clearing or re-pointing one of them must not disturb the other
+REL = [
+    dict(op="hlink_shape", url="https://e.com/a", which="first", **S0), dict(op="hlink_shape", url="https://e.com/a", **S0),
+    dict(op="hlink_shape", url=None, **S0), dict(op="hlink_shape", url="https://e.com/b", **S0),
+    dict(op="hlink_run", url="https://e.com/a", which="first", **S0), dict(op="hlink_run", url="https://e.com/a", **S0),
+    dict(op="hlink_run", url=None, **S0), dict(op="hlink_run", url="https://e.com/b", **S0),
+    dict(op="add_picture", img="A", via="stream", **S0), dict(op="notes_text", text="n", **S0), dict(op="save_reopen"),
 ]
 SUB = [
     dict(op="add_textbox", **S0), dict(op="add_group", member="none", **S0), dict(op="add_in_group", depth=1, kind="shape"),
@@ -450,15 +461,17 @@ def check_last(live, init, hist, part):
 
 
 def run(ctx):
-    ctx.extra["alphabet"] = {"full": [_hs([o]) for o in FULL], "sub": [_hs([o]) for o in SUB]}
+    ctx.extra["alphabet"] = {"full": [_hs([o]) for o in FULL], "sub": [_hs([o]) for o in SUB], "rel": [_hs([o]) for o in REL]}
     ctx.extra["initial_decks"] = INITS
     if ctx.thorough:
         explorer.explore(ctx, System(FULL), 3, name="full-alphabet")
         explorer.explore(ctx, System(SUB, INITS), 4, name="id-allocating-subalphabet")
+        explorer.explore(ctx, System(REL, ["contig/s256", "default"]), 4, name="relationship-sharing-subalphabet")
     else:
         explorer.explore(ctx, System(FULL), 1, name="full-alphabet/all-decks")
         explorer.explore(ctx, System(FULL, MID_INITS), 2, name="full-alphabet")
         explorer.explore(ctx, System(SUB, SUB_INITS), 3, name="id-allocating-subalphabet")
+        explorer.explore(ctx, System(REL, ["contig/s256"]), 3, name="relationship-sharing-subalphabet")
 
 
 def replay(data):
